@@ -176,12 +176,12 @@ pub fn draw_sub(r: &mut Prng, f: &FactSet, source: usize, allow_bad: bool) -> Op
 }
 
 /// Size thresholds of the library's own limits: more than 65 535 terms (C10) / more than 65 535 records of a kind (C03)
-fn gen_threshold(prop: &str, r: &mut Prng, seed: u64, run: u64) -> Scenario {
+fn gen_threshold(prop: &str, r: &mut Prng, seed: u64, run: u64, many_terms: bool) -> Scenario {
     let mut facts = FactSet::default();
     if prop == "C10" {
         let n = r.urange(65_530, 66_200);
         facts = crate::facts::many_terms_facts(r, n, false);
-    } else if matches!(prop, "C01" | "C16" | "C09" | "C02") {
+    } else if many_terms {
         // once per batch: more than 65 535 terms over the builder, binary and text transports
         let n = r.urange(65_537, 65_700);
         facts = crate::facts::many_terms_facts(r, n, true);
@@ -244,10 +244,14 @@ pub fn gen_replicas(prop: &str, r: &mut Prng, seed: u64, run: u64, thorough: boo
     let period = if thorough { 60_000 } else { 6_000 };
     // (offset by the batch index so that the heavy runs land on different workers)
     if (prop == "C10" || prop == "C03") && (run % period == period / 2 + (run / period) % 16 || forced) {
-        return gen_threshold(prop, r, seed, run);
+        return gen_threshold(prop, r, seed, run, false);
     }
     if matches!(prop, "C01" | "C16" | "C09" | "C02") && (run % (period * 4) == period * 2 + 1 || forced) {
-        return gen_threshold(prop, r, seed, run);
+        return gen_threshold(prop, r, seed, run, true);
+    }
+    // (C03 and C19 as well: information content and classification of terms stored beyond position 65 535)
+    if matches!(prop, "C03" | "C19") && run % (period * 4) == period * 2 + 1 {
+        return gen_threshold(prop, r, seed, run, true);
     }
     let mut cfg = GenCfg::draw(r);
     // over-long names (binary transports cut them at 255 bytes, which the Trunc255 projection models) on a share of the runs
